@@ -2371,6 +2371,13 @@ def BHJM_cylinder_segment(
     # transform dim deg->rad
     phi1 = phi1 / 180 * np.pi
     phi2 = phi2 / 180 * np.pi
+    # section angles outside of [-2pi, 2pi] are shifted by full turns into that
+    # range, which is what the inside/surface masks below can handle
+    out_of_range = (phi1 < -2 * np.pi) | (phi2 > 2 * np.pi)
+    if np.any(out_of_range):
+        shift = np.where(out_of_range, (np.floor(phi1 / (2 * np.pi)) + 1) * 2 * np.pi, 0)
+        phi1 = phi1 - shift
+        phi2 = phi2 - shift
     dim = np.array([r1, r2, phi1, phi2, z1, z2]).T
 
     # transform obs_pos to Cy CS --------------------------------------------
